@@ -398,6 +398,55 @@ def _assign(m, data):
     return m
 
 
+class MyMessage(Message):
+    """User subclasses that add a method (no state of their own)."""
+
+    def describe(self):
+        return f'{self.type}!'
+
+
+class MyMeta(MetaMessage):
+    def describe(self):
+        return f'{self.type}!'
+
+
+class MyUnknown(UnknownMetaMessage):
+    def describe(self):
+        return 'unknown!'
+
+
+def user_subclass_cases(ctx):
+    """Instances of user-defined subclasses of the three message classes: copy() keeps the class, freeze
+    gives the frozen class of the matching LIBRARY base class (usable: repr, bytes, hash), thaw gives the
+    library base class back, all equal to the original."""
+    n = 0
+    for label, m, fcls, base in (('Message', MyMessage('note_on', note=5, time=2), FrozenMessage, Message),
+                                 ('MetaMessage', MyMeta('set_tempo', tempo=9, time=1), FrozenMetaMessage, MetaMessage),
+                                 ('UnknownMetaMessage', MyUnknown(0x60, (1, 2), time=3), FrozenUnknownMetaMessage, UnknownMetaMessage)):
+        case = {'kind': 'user-subclass', 'of': label}
+        try:
+            c = m.copy()
+            ctx.check('copy() == original, same class, new object', type(c) is type(m) and c == m and c is not m, f'user-subclass-copy:{label}',
+                      case, type(c).__name__)
+            f = freeze_message(m)
+            ok = type(f) is fcls and f == m and is_frozen(f)
+            try:
+                usable = repr(f) is not None and list(f.bytes()) == list(m.bytes()) and {f: 1}[freeze_message(m.copy())] == 1
+            except Exception as exc:
+                usable = f'{type(exc).__name__}: {exc}'
+            ctx.check('freeze gives the frozen class, equal', ok and usable is True, f'user-subclass-freeze:{label}', case,
+                      lambda: {'class': type(f).__name__, 'usable': usable})
+            t = thaw_message(f)
+            ctx.check('thaw(freeze(m)) == m', type(t) is base and t == m and not is_frozen(t), f'user-subclass-thaw:{label}', case,
+                      type(t).__name__)
+            t.time = 77
+            ctx.check('original unchanged', m.time != 77 and f.time != 77, f'user-subclass-aliasing:{label}', case, None)
+        except Exception as exc:
+            ctx.fail('no exception', f'user-subclass:{label}:{type(exc).__name__}', case, f'{type(exc).__name__}: {exc}')
+        n += 1
+    return n
+
+
 def unchecked_value_cases(ctx):
     """Messages holding values that only skip_checks=True lets in are Message values too: copy() without
     overrides, copy(skip_checks=True, ...), freeze and thaw keep them equal (none of these validates)."""
@@ -508,6 +557,7 @@ def run(ctx):
         n += 3
         n += unknown_meta_variants(ctx)
         n += unchecked_value_cases(ctx)
+        n += user_subclass_cases(ctx)
     ctx.count('cases', n)
 
 
@@ -522,5 +572,7 @@ def replay(ctx, case):
         unknown_meta_variants(ctx)
     elif case['kind'] == 'unchecked-values':
         unchecked_value_cases(ctx)
+    elif case['kind'] == 'user-subclass':
+        user_subclass_cases(ctx)
     else:
         seqspec_probe(ctx)
